@@ -489,7 +489,11 @@ def each_run_starts_clean(ctx):
         mentions = [x for u in units for x in body_walk(u.node) if isinstance(x, ast.Constant) and x.value == 'cleanup']
         partial = [x for u in units for x in body_walk(u.node) if isinstance(x, ast.BoolOp) and isinstance(x.op, ast.Or) and
                    any(isinstance(k, ast.Constant) and k.value == 'cleanup' for v in x.values[1:] for k in ast.walk(v))]
-        if verdict and not partial:
+        other_default = [c for u in units for c in calls_in(u.node) if call_attr(c) == 'setdefault' and c.args and isinstance(c.args[0], ast.Constant)
+                         and c.args[0].value == 'cleanup' and len(c.args) > 1 and not (isinstance(c.args[1], ast.Constant) and c.args[1].value is None)]
+        if other_default:
+            ctx.bad(key, other_default[0], f'`{src(other_default[0])}` makes a start without cleanup keyword take over `{src(other_default[0].args[1])}`: ' + msg, s)
+        elif verdict and not partial:
             ctx.ok(key, verdict[1].node, verdict[2], s)
         elif partial:
             ctx.bad(key, partial[0], f'`{src(partial[0])}` applies the default only when NO attribute at all is given: ' + msg, s)
